@@ -549,6 +549,11 @@ func typeTag(t types.Type) int {
 
 func (e *Engine) makeInterface(st *State, x Val, xt types.Type) Val {
 	tag := num(int64(typeTag(xt)))
+	if x.K == KPtr {
+		// an interior pointer (address of a local variable) stored in an interface:
+		// the payload is an opaque fresh reference, the location is remembered Go-side
+		return Val{K: KIface, Fs: []Val{intv(tag), intv(e.freshRef(st, "addr"))}, P: x.P}
+	}
 	return Val{K: KIface, Fs: []Val{intv(tag), intv(e.box(st, x, xt))}}
 }
 
